@@ -188,6 +188,12 @@ def popen_eof_branch_carries_no_data(f, r):
         return False, 'the accumulated-text local (initialised from self._buf) was not found'
     buf = bufs[0]
     if ('len(%s) < size' % buf, True) not in loop_entry_conditions(g, flags[0]):
+        # the same premise stated on a running count of the accumulated length (`pending = len(buf)` ... `pending += len(text)`, `pending < size`):
+        # that the count equals the length of what is joined at the end is a fact about values, not decided here
+        counts = [a_.split(' < ')[0] for a_, v_ in loop_entry_conditions(g, flags[0]) if v_ and a_.endswith(' < size') and a_.split(' < ')[0].isidentifier()]
+        if counts:
+            raise AnalysisError('%s: the dequeue loop is bounded by the running count `%s` instead of len(%s): whether the carry-over buffer is empty when the '
+                                'end of the stream is flagged cannot be decided' % (f.qual, counts[0], buf))
         return False, 'the end-of-stream flag can be set while len(%s) >= size (no `len(%s) < size` condition on the way to it)' % (buf, buf)
     # buf not extended between loop test and the flag on that path: flag is in the `incoming is None` branch before any buf +=
     hdr = g.node_of_stmt(loops[0])
